@@ -92,7 +92,27 @@ def trace(expr):
     return passes, e
 
 
+def handle_joint(req):
+    """several programs computed in one graph vs one by one (name/key collisions between expressions)"""
+    try:
+        xs = [P.build(p, da, True) for p in req["progs"]]
+        joint = dask.compute(*xs)
+        bad = []
+        for i, (x, j) in enumerate(zip(xs, joint)):
+            s = np.asarray(x.compute())
+            j = np.asarray(j)
+            if s.shape != j.shape or not np.array_equal(s, j, equal_nan=s.dtype.kind in "fc"):
+                bad.append(i)
+        return {"status": "ok", "bad": bad, "names": [x.name for x in xs]}
+    except NotImplementedError as ex:
+        return {"status": "unsupported", "error": str(ex)[:200]}
+    except Exception as ex:
+        return {"status": "compute-error", "error": f"{type(ex).__name__}: {ex}"[:300]}
+
+
 def handle(req):
+    if "progs" in req:
+        return handle_joint(req)
     prog = req["prog"]
     out = {}
     try:
